@@ -20,6 +20,8 @@ Grids (all complete within their bounds):
   g7 same name : one namespace name declared in two files of a render (includer + included, template +
                   namespace file, derived + base) at different depths, each resolving the same relative
                   spelling through it
+  g8 several ns: two or three file namespaces per template, each library def probing its own self/local
+  g9 mangled   : templates of one render whose URIs differ only in non-word characters (known finding) + control
   g6 crossed   : g1 x g3 (include args and context names at every depth, spelling, site)
 """
 
@@ -66,22 +68,26 @@ ASSUMPTIONS = [
 ]
 BOUNDS = {
     "quick": {
-        "g1": "depth 0..3 x 9 spellings x (9 written-in mechanisms x 4 sites + 3 namespace-relative mechanisms) x present/absent x 3 backings",
-        "g2": "2^5 presence combinations x inline def with/without context reference x 5 import modes x 6 probes (tag in the base) + 4 probes (tag in the derived template) + anonymous namespaces, put_string backing; inline-only namespaces; two <%namespace import=> tags on one line (6 name-less/named and named/star combinations x context competitors x 3 probes x tag in a plain template or in a base)",
+        "g1": "depth 0..3 x 9 spellings x (9 written-in mechanisms x 4 sites + 3 namespace-relative mechanisms) x present/absent x put_string + one directory (odd depths) / two directories (even depths)",
+        "g2": "2^5 presence combinations x inline def with/without context reference x 5 import modes x 6 probes (tag in the base) + 4 probes (tag in the derived template) + anonymous namespaces, put_string backing; inline-only namespaces; two <%namespace import=> tags on one line (6 name-less/named and named/star combinations x context competitors x 3 probes x tag in a plain template or in a base); imported def named f / max / format / id x import none/named/* x same-named context variable or not x strict_undefined off/on x read in body / top-level def / nested def / named block x plain or base template",
         "g3": "2 page signatures x 8 arg sets x 8 context sets x 4 includers x 2 mechanisms (+ inheriting targets) x 2 backings; include inside a def called by name / through self from a body whose value comes from <%page args> bound by an outer include, a top-level assignment, both, or a top-level-rendered body's assignment x render() supplies the name or not x required/defaulted target argument x args given or not x 2 names",
         "g4": "module namespace: 5 import modes x inline/context competitors x 7 probes",
-        "g5": "chains of 1..2 hops x 5 mechanisms per hop x 3 directories per file x relative/absolute spelling, files backing (+ put_string where no dot segment); 3 hops x {include, namespace def, inherit} x 2 directories, relative",
+        "g5": "chains of 1..2 hops x 5 mechanisms per hop x 3 directories per file x relative/absolute spelling, files backing (+ put_string for one-hop chains without dot segment); 3 hops x {include, namespace def, inherit} x 2 directories, relative",
         "g6": "g1 x g3: depth 0..3 x 3 spellings x 4 include mechanisms x sites x 4 arg sets x 4 context sets",
+        "g8": "2 or 3 <%namespace file=> tags of one template pointing at libraries in different directories: every declaration order x call order as declared / reversed x 6 probes inside the library def (local.uri+self.uri, self.who()/local.who(), local.include_file, local.get_template, local.get_namespace, <%include>, all with a relative 't.html') x tag in a plain / derived / base template x 2 backings",
+        "g9": "URI pairs that differ only in non-word characters (4 pairs, both orders) x {include, include first, namespace def, inherit}, each template declaring namespace 'n' with a different file; plus the control with a word-character difference; 2 backings",
         "g7": "same namespace name 'h' declared in two files of one render: 12 ordered directory-depth pairs x {h.get_namespace, h.get_template, h.include_file, chained get_namespace} x {includer+included, template+namespace file, derived+base} x which call runs first x target beside both/first/second/neither x 2 backings",
     },
     "thorough": {
         "g1": "depth 0..3 x 15 spellings x (9 x 4 + 3) mechanisms x present/absent x 3 backings x main URI with/without leading slash (files)",
-        "g2": "as quick + files backing + 3-level inheritance chain + import list spelled 'f ,k'",
+        "g2": "as quick + files backing + 3-level inheritance chain + import list spelled 'f ,k' + the whole presence grid under strict_undefined",
         "g3": "3 page signatures x 8 arg sets x 8 context sets x 4 includers x 2 mechanisms x 2 backings; def-called-from-body includes as quick",
         "g4": "as quick",
         "g5": "chains of 1..2 hops x 5 mechanisms x 4 directories, 3 hops x 5 mechanisms x 3 directories, 4 hops x 3 mechanisms x 2 directories, relative/absolute spelling; 5 hops (6 files) x 3 mechanisms and 7 hops (8 files) x mechanism vectors over {include, namespace def} with at most one change x 2 directories, relative",
         "g6": "g1 x g3: depth 0..3 x 5 spellings x 4 include mechanisms x sites x 4 arg sets x 8 context sets",
         "g7": "as quick x 3 spellings (t.html, sub/t.html, ../t.html)",
+        "g8": "as quick",
+        "g9": "as quick",
     },
 }
 READY = True
@@ -346,6 +352,8 @@ def gen_g2(tier, al):
                     for levels in (2, 3) if tier == "thorough" else (2,):
                         meta = {"grid": "g2", "I": I, "F": F, "P": P, "C": C, "H": H, "iuse": iuse, "imp": imp, "probe": probe}
                         yield meta, functools.partial(g2_program, al, I, F, P, C, H, iuse, imp, probe, levels)
+                        if tier == "thorough" and levels == 2:
+                            yield dict(meta, strict=1), functools.partial(g2_program, al, I, F, P, C, H, iuse, imp, probe, levels)
                     if not H and probe in ("q_ns", "q_bare", "q_def", "q_block"):
                         meta = {"grid": "g2", "I": I, "F": F, "P": P, "C": C, "H": H, "iuse": iuse, "imp": imp, "probe": probe, "where": "derived"}
                         yield meta, functools.partial(g2_program, al, I, F, P, C, H, iuse, imp, probe, 2, where="derived")
@@ -353,6 +361,40 @@ def gen_g2(tier, al):
                         # <%namespace> without a name: reachable through import only
                         meta = {"grid": "g2", "I": I, "F": F, "P": P, "C": C, "H": H, "iuse": iuse, "imp": imp, "probe": probe, "anon": 1}
                         yield meta, functools.partial(g2_program, al, I, F, P, C, H, iuse, imp, probe, 2, anon=True)
+    # import= against context variables and builtins, with and without strict_undefined, read in the body,
+    # a top-level def, a def nested in it, a named block
+    v = al["vals"]
+    for name in ("f", "max", "format", "id"):
+        for imp in (None, name, "*"):
+            for C in (0, 1):
+                for strict in (0, 1):
+                    for pos in ("body", "def", "nested", "block"):
+                        for site in ("plain", "base"):
+                            ctx = {"x": v[0]}
+                            if C:
+                                ctx[name] = "@helper:cf"
+                            lib = File(defs=[Def(n_, "", [T("[F-%s:" % n_), ["var", "x"], T("]")]) for n_ in ("f", "max", "format", "id")], body=[T("[lib-body]")])
+                            call = ["call", name, ""]
+                            defs = []
+                            if pos == "body":
+                                st = [call]
+                            elif pos == "def":
+                                defs = [Def("dd", "", [T("d<"), call, T(">")])]
+                                st = [["call", "dd", ""]]
+                            elif pos == "nested":
+                                defs = [Def("dd", "", [["ndef", Def("inner", "", [T("n<"), call, T(">")])], T("d<"), ["call", "inner", ""], T(">")])]
+                                st = [["call", "dd", ""]]
+                            else:
+                                st = [["block", "blk", [T("b<"), call, T(">")]]]
+                            nsd = Ns("ns", file="lib/l.html", imp=imp)
+                            files = {"/s/lib/l.html": lib}
+                            if site == "plain":
+                                files["/s/main.html"] = File(ns=[nsd], defs=defs, body=[T("<")] + st + [T(">")])
+                            else:
+                                files["/s/base.html"] = File(ns=[nsd], defs=defs, body=[T("B<")] + st + [T(">("), ["attr", "next", "body", ""], T(")")])
+                                files["/s/main.html"] = File(inherit="base.html", body=[T("M")])
+                            meta = {"grid": "g2", "I": 0, "F": 1, "P": 0, "C": C, "H": 0, "iuse": 0, "imp": imp, "probe": "q_bare", "strict": strict, "name": name, "pos": pos}
+                            yield meta, functools.partial(_const, (files, "/s/main.html", ctx))
     # several <%namespace> tags on one source line (the printer never breaks lines), two of them without a
     # name: each must contribute its own imports
     v = al["vals"]
@@ -729,9 +771,109 @@ def gen_g7(tier, al):
 
 
 # --------------------------------------------------------------------------
+# g8: several file namespaces in one template; every library def must see its own self/local
+
+G8_PROBES = ["uri", "self_def", "include_file", "get_template", "get_namespace", "include_tag"]
+
+
+def g8_program(al, order, callorder, probe, site):
+    d1, d2, d3 = al["dirs"]
+    tx = al["txt"]
+    LIBDIRS = ["/lib0", "/%s/lib1" % d1, "/%s/%s/lib2" % (d1, d2)]
+    files = {}
+    for i in order:
+        D = LIBDIRS[i]
+        if probe == "uri":
+            pb = [["uri", "local"], ["uri", "self"]]
+        elif probe == "self_def":
+            pb = [["attr", "self", "who", ""], ["attr", "local", "who", ""]]
+        elif probe == "include_file":
+            pb = [["include_file", "local", "t.html", ""]]
+        elif probe == "get_template":
+            pb = [["get_tpl", "local", "t.html"]]
+        elif probe == "get_namespace":
+            pb = [["get_ns", "local", "t.html", "m", ""]]
+        else:
+            pb = [["include", "t.html", ""]]
+        files[D + "/l.html"] = File(defs=[Def("who", "", [T("[who:%d%s]" % (i, tx))]), Def("probe", "", [T("p%d<" % i)] + pb + [T(">")])], body=[T("[lib%d-body]" % i)])
+        files[D + "/t.html"] = target_file(D, tx)
+    nss = [Ns("n%d" % i, file=LIBDIRS[i] + "/l.html") for i in order]
+    calls = []
+    for i in callorder:
+        calls.append(["attr", "n%d" % i, "probe", ""])
+    if site == "plain":
+        files["/m/main.html"] = File(ns=nss, body=[T("<")] + calls + [T(">")])
+    elif site == "derived":
+        files["/m/base.html"] = File(body=[T("B("), ["attr", "next", "body", ""], T(")")])
+        files["/m/main.html"] = File(inherit="base.html", ns=nss, body=[T("<")] + calls + [T(">")])
+    else:
+        files["/m/base.html"] = File(ns=nss, body=[T("B<")] + calls + [T(">("), ["attr", "next", "body", ""], T(")")])
+        files["/m/main.html"] = File(inherit="base.html", body=[T("M")])
+    return files, "/m/main.html", {}
+
+
+def gen_g8(tier, al):
+    orders = list(itertools.permutations((0, 1))) + list(itertools.permutations((0, 1, 2)))
+    for order in orders:
+        for rev in (0, 1):
+            callorder = tuple(reversed(order)) if rev else order
+            for probe in G8_PROBES:
+                for site in ("plain", "derived", "base"):
+                    meta = {"grid": "g8", "order": list(order), "callorder": list(callorder), "probe": probe, "site": site}
+                    yield meta, functools.partial(g8_program, al, order, callorder, probe, site)
+
+
+# --------------------------------------------------------------------------
+# g9: two templates of one render whose URIs differ only in non-word characters, each declaring a
+# namespace of the same name with a different file (and the control: URIs that differ in a word character)
+
+G9_PAIRS = [("/a/b.html", "/a_b.html"), ("/a-b.html", "/a_b.html"), ("/a.b.html", "/a-b.html"), ("/a/b.html", "/a/b_html")]
+G9_CONTROL = {"/a_b.html": "/a_c.html", "/a-b.html": "/a-c.html", "/a/b_html": "/a/c_html"}
+
+
+def g9_program(al, first, second, rel):
+    tx = al["txt"]
+    files = {
+        "/l1.html": File(defs=[Def("f", "", [T("[L1" + tx + "]")])], body=[T("[l1-body]")]),
+        "/l2.html": File(defs=[Def("f", "", [T("[L2" + tx + "]")])], body=[T("[l2-body]")]),
+    }
+    n1, n2 = Ns("n", file="/l1.html"), Ns("n", file="/l2.html")
+    a, b = [T("A<"), ["attr", "n", "f", ""], T(">")], [T("B<"), ["attr", "n", "f", ""], T(">")]
+    if rel == "include":
+        files[first] = File(ns=[n1], body=a + [["include", second, ""]])
+        files[second] = File(ns=[n2], body=b)
+    elif rel == "include-first":
+        files[first] = File(ns=[n1], body=[["include", second, ""]] + a)
+        files[second] = File(ns=[n2], body=b)
+    elif rel == "nsdef":
+        files[first] = File(ns=[n1, Ns("p", file=second)], body=a + [["attr", "p", "go", ""]])
+        files[second] = File(ns=[n2], defs=[Def("go", "", b)], body=[T("[p-body]")])
+    else:
+        files[first] = File(ns=[n1], inherit=second, body=a)
+        files[second] = File(ns=[n2], body=b + [T("("), ["attr", "next", "body", ""], T(")")])
+    return files, first, {}
+
+
+def gen_g9(tier, al):
+    for first, second in G9_PAIRS:
+        for rel in ("include", "include-first", "nsdef", "inherit"):
+            for swap in (0, 1):
+                f_, s_ = (second, first) if swap else (first, second)
+                # control: the same program with the punctuation-only difference turned into a word-character difference
+                cs = G9_CONTROL.get(s_) or s_
+                cf = f_ if cs != s_ else G9_CONTROL.get(f_, f_)
+                cfiles, cM, _ = g9_program(al, cf, cs, rel)
+                cexp, _ = R.render(cfiles, cM, {})
+                control = {"files": IR.print_program(cfiles), "main": cM, "expected": list(cexp)}
+                meta = {"grid": "g9", "uris": [f_, s_], "rel": rel, "control": control}
+                yield meta, functools.partial(g9_program, al, f_, s_, rel)
+                yield {"grid": "g9", "uris": [cf, cs], "rel": rel, "is_control": 1}, functools.partial(g9_program, al, cf, cs, rel)
+
+
+# --------------------------------------------------------------------------
 # case stream
 
-GRIDS = {"g1": gen_g1, "g2": gen_g2, "g3": gen_g3, "g4": gen_g4, "g5": gen_g5, "g6": gen_g6, "g7": gen_g7}
+GRIDS = {"g1": gen_g1, "g2": gen_g2, "g3": gen_g3, "g4": gen_g4, "g5": gen_g5, "g6": gen_g6, "g7": gen_g7, "g8": gen_g8, "g9": gen_g9}
 BACKINGS = {
     "g1": ["put", "files1", "files2"],
     "g2": ["put", "files1"],
@@ -740,6 +882,8 @@ BACKINGS = {
     "g5": ["files1", "put"],
     "g6": ["files1"],
     "g7": ["put", "files1"],
+    "g8": ["put", "files1"],
+    "g9": ["put", "files1"],
 }
 
 
@@ -795,7 +939,7 @@ def nontrivial(meta, files, M, it):
         return meta["probe"] in ("wrap_cc", "wrap_nested", "plain_bare", "ret_bare") or bool(meta["imp"])
     if g == "g5":
         return meta["k"] >= 2
-    if g == "g7":
+    if g in ("g7", "g8", "g9"):
         return True
     return False
 
@@ -819,6 +963,15 @@ def cases(grid, tier, seed, shard=0, nshards=1):
                 continue
             if backing == "files1" and grid == "g2" and tier == "quick":
                 continue  # precedence does not depend on the backing: second backing in the thorough tier only
+            if tier == "quick":
+                # quick tier: one of the two file backings per depth, put_string chains of one hop only,
+                # the second backing of g7 for the cached mechanisms only (everything in the thorough tier)
+                if grid == "g1" and backing == ("files2" if meta["d"] % 2 == 0 else "files1"):
+                    continue
+                if grid == "g5" and backing == "put" and meta["k"] > 1:
+                    continue
+                if grid == "g7" and backing == "files1" and "get_namespace" not in meta["mech"]:
+                    continue
             for ms in main_spell:
                 if ms != M and backing == "put":
                     continue
@@ -826,7 +979,7 @@ def cases(grid, tier, seed, shard=0, nshards=1):
 
 
 def make_case(files, M, ctx, meta):
-    exp, it = R.render(files, M, E.build_ctx(ctx))
+    exp, it = R.render(files, M, E.build_ctx(ctx), strict=bool(meta.get("strict")))
     text = IR.print_program(files)
     case = {"files": text, "main": M, "ctx": ctx, "backing": meta["backing"], "expected": list(exp), "meta": meta}
     return case, it
@@ -867,10 +1020,11 @@ def execute(case):
 
     files, main, backing = case["files"], case["main"], case["backing"]
     ctx = E.build_ctx(case["ctx"])
+    tkw = {"strict_undefined": True} if case["meta"].get("strict") else {}
     wd = None
     try:
         if backing == "put":
-            lk = TemplateLookup()
+            lk = TemplateLookup(**tkw)
             try:
                 for u in sorted(files):
                     lk.put_string(u, files[u])
@@ -892,7 +1046,7 @@ def execute(case):
                 # decoys outside the lookup root: a URI that climbs out must not reach them
                 for p in (os.path.join(inner, "t.html"), os.path.join(wd, "o1", "t.html"), os.path.join(inner, "abs", "t.html"), os.path.join(inner, "sub", "t.html")):
                     _write(p, "[OUTSIDE-THE-ROOT]")
-            lk = TemplateLookup(directories=roots)
+            lk = TemplateLookup(directories=roots, **tkw)
         try:
             t = lk.get_template(main)
         except Exception as e:  # noqa
@@ -913,7 +1067,7 @@ def execute(case):
             shutil.rmtree(wd, ignore_errors=True)
 
 
-_WINNER = re.compile(r"\[(I|F|P)-(?:f|plain)|\[A-f|\[B-g|<ctx-[fg]>|P\(|R\(")
+_WINNER = re.compile(r"\[(I|F|P)-(?:f|plain|max|format|id)|\[A-f|\[B-g|<ctx-[fg]>|P\(|R\(")
 
 
 def _winner(obs):
@@ -922,6 +1076,8 @@ def _winner(obs):
         if not m:
             return "none"
         g = m.group(0)
+        if g.startswith("[F-"):
+            return "file"
         return {"[I-f": "inline", "[F-f": "file", "[P-f": "inherited", "[I-plain": "inline", "<ctx-f>": "context", "<ctx-g>": "context", "[A-f": "file", "[B-g": "file", "P(": "module", "R(": "module"}.get(g, g)
     if obs[0] == "exc":
         if obs[1] == "NameError" and "_import_ns" in obs[2]:
@@ -972,6 +1128,9 @@ def signature(case, obs, kind):
     if g == "g2":
         impk = "none" if meta["imp"] is None else ("star" if "*" in meta["imp"] else "named")
         ew = _winner(tuple(exp)) if exp[0] == "out" else exp[1]
+        if meta.get("name"):
+            return "g2:import=%s of a def named like a %s:%s:exp=%s:obs=%s" % (
+                impk, "builtin" if meta["name"] != "f" else "context variable", "strict_undefined" if meta.get("strict") else "default", ew, _winner(obs))
         if meta.get("one_line"):
             anon = sum(1 for k_ in meta["imp"].split("+") if k_.startswith("anon"))
             return "g2:%d name-less <%%namespace import=> tags on one line:exp=%s:obs=%s" % (anon, ew, _winner(obs))
@@ -1001,6 +1160,10 @@ def signature(case, obs, kind):
     if g == "g4":
         impk = "none" if meta["imp"] is None else ("star" if "*" in meta["imp"] else "named")
         return "g4:%s:import=%s:exp=%s:obs=%s" % (meta["probe"], impk, _winner(tuple(exp)) if exp[0] == "out" else exp[1], how if obs[0] != "out" else _winner(obs))
+    if g == "g8":
+        return "g8:%s in a def of one of several file namespaces of a template:exp=%s:obs=%s" % (meta["probe"], exp[0] if exp[0] != "err" else exp[1], "another namespace's template answered" if obs[0] == "out" else how)
+    if g == "g9":
+        return "g9:%s:exp=%s:obs=%s" % (meta["rel"], exp[0] if exp[0] != "err" else exp[1], "other output" if obs[0] == "out" else how)
     if g == "g7":
         if exp[0] == "out" and obs[0] == "out":
             how = "a namespace of the same name in another file answered (other template than the uri names)"
@@ -1051,6 +1214,20 @@ def judge(case, obs):
     return "pyerr-wrongclass", ("reference", "wrong exception class", cls, list(obs))
 
 
+MANGLED_SIG = "mangled-uri:namespace registry shared by templates whose URIs differ only in non-word characters"
+
+
+def classify(case, obs, kind):
+    """signature of a failure; a g9 failure is attributed to the mangled-module-name registry only if the
+    control program (the same templates under URIs that differ in a word character) passes"""
+    ctl = case["meta"].get("control")
+    if ctl is not None:
+        c2 = {"files": ctl["files"], "main": ctl["main"], "ctx": {}, "backing": case["backing"], "expected": ctl["expected"], "meta": {"grid": "g9", "backing": case["backing"], "dots": False}}
+        if judge(c2, execute(c2))[1] is None:
+            return MANGLED_SIG
+    return signature(case, obs, kind)
+
+
 def check_case(case, st, it=None):
     obs = execute(case)
     st.evaluations += 1
@@ -1071,7 +1248,7 @@ def check_case(case, st, it=None):
     if obs2 != obs:
         st.extra.setdefault("harness_errors", []).append("non-deterministic observation: %r vs %r | %s" % (obs, obs2, case["meta"]))
         return
-    st.violation(signature(case, obs, kind), case, kind + ": " + text, expected=e, observed=o)
+    st.violation(classify(case, obs, kind), case, kind + ": " + text, expected=e, observed=o)
 
 
 # --------------------------------------------------------------------------
@@ -1080,9 +1257,9 @@ def check_case(case, st, it=None):
 
 def _shards(tier):
     n = core.NPROC
-    per = {"g1": 2 * n, "g2": 2 * n, "g3": n, "g4": 2, "g5": 2 * n, "g6": n, "g7": n}
+    per = {"g1": 2 * n, "g2": 2 * n, "g3": n, "g4": 2, "g5": 2 * n, "g6": n, "g7": n, "g8": n // 2, "g9": 2}
     if tier == "thorough":
-        per = {"g1": 2 * n, "g2": 2 * n, "g3": n, "g4": 2, "g5": 8 * n, "g6": n, "g7": n}
+        per = {"g1": 2 * n, "g2": 2 * n, "g3": n, "g4": 2, "g5": 8 * n, "g6": n, "g7": n, "g8": n // 2, "g9": 2}
     return per
 
 
@@ -1092,7 +1269,7 @@ def plan(tier, seed):
         for i in range(k):
             jobs.append({"grid": g, "tier": tier, "seed": seed, "shard": i, "nshards": k})
     # heavy grids first; the seed permutes the rest of the order only
-    jobs.sort(key=lambda j: ({"g5": 0, "g6": 1, "g1": 2, "g2": 3, "g7": 4, "g3": 5, "g4": 6}[j["grid"]], (j["shard"] + seed) % j["nshards"]))
+    jobs.sort(key=lambda j: ({"g5": 0, "g6": 1, "g1": 2, "g2": 3, "g7": 4, "g3": 5, "g8": 6, "g4": 7, "g9": 8}[j["grid"]], (j["shard"] + seed) % j["nshards"]))
     return jobs
 
 
@@ -1129,7 +1306,7 @@ def replay(case):
         return True, "holds: %s" % outcome
     if v[0] == "harness":
         return None, "harness: " + v[1]
-    return False, "reproduced [%s]: %s\n expected=%r\n observed=%r" % (signature(case, obs, v[0]), v[1], v[2], v[3])
+    return False, "reproduced [%s]: %s\n expected=%r\n observed=%r" % (classify(case, obs, v[0]), v[1], v[2], v[3])
 
 
 # --------------------------------------------------------------------------
@@ -1177,6 +1354,8 @@ def corpus(limit=400):
                 continue
             if g == "g5" and (meta["k"] > 2 or meta.get("same_name")):
                 continue
+            if meta.get("strict") or meta.get("name"):
+                continue  # need Template(strict_undefined=True) / belong to that block
             files, M, ctx = thunk()
             if uses_dots(files) or any(has_dots(v) for v in ctx.values() if isinstance(v, str)):
                 continue  # dot segments behave differently under put_string by design
